@@ -139,13 +139,16 @@ Definition prophet_offer (s : pstate) (dest : N) (sent : list N) (css : list N) 
 
 (* ---- sharing of the predictabilities map with metadata blocks in flight ----
    Interleaving model of the goroutines that touch Go maps.  Map objects: [OOwn] stands for the
-   algorithm's maps guarded by dataMutex ([predictabilities] and the outer [peerPredictabilities]
-   map, conflated into one object - conservative: more overlaps count as faults, not fewer) and
-   [OCopy t] for the private copy made for the metadata block of thread t.  (The vector of a
-   received block is stored as it is and only ever read afterwards; it is not an object here.)  A thread is a list of atomic actions; a Go map faults ("concurrent map
+   node's own [predictabilities] map, [OPeers] for the outer [peerPredictabilities] map (both
+   guarded by dataMutex) and [OCopy t] for the private copy made for the metadata block of
+   thread t.  (The vector of a received block is stored as it is and only ever read afterwards;
+   it is not an object here.)  A thread is a list of atomic actions; a Go map faults ("concurrent map
    iteration and map write" / "concurrent map read and map write") when a write to an object
    happens while another thread is inside a read span (iteration or lookup) of the same object. *)
-Inductive mobj := OOwn | OCopy (t : nat).
+Inductive mobj := OOwn | OPeers | OCopy (t : nat).
+
+(* the objects several goroutines can reach (a copy belongs to one thread) *)
+Definition mshared (o : mobj) : bool := match o with OCopy _ => false | _ => true end.
 Inductive mact :=
   | ALock | AUnlock | ARLock | ARUnlock
   | ABegin (o : mobj)     (* start of a read span: range loop / lookup *)
@@ -156,11 +159,12 @@ Inductive mact :=
 Inductive mop :=
   | OpAge (nkeys : nat)            (* ageCron: Lock; write every key; Unlock *)
   | OpPeerAppeared (nkeys : nat)   (* ReportPeerAppeared: Lock; encounter; Unlock; sendMetadata *)
-  | OpImport (nkeys : nat)         (* NotifyNewBundle(metadata): Lock; transitivity writes; Unlock *)
-  | OpSenderFor.                   (* SenderForBundle: lookups in predictabilities *)
+  | OpImport (nkeys : nat)         (* NotifyNewBundle(metadata): Lock; look-up and store of the peer's vector;
+                                      transitivity: look-up of the vector, writes; Unlock *)
+  | OpSenderFor.                   (* SenderForBundle: lookups in predictabilities and peerPredictabilities *)
 
 Definition mobj_eqb (a b : mobj) : bool :=
-  match a, b with OOwn, OOwn => true | OCopy x, OCopy y => Nat.eqb x y | _, _ => false end.
+  match a, b with OOwn, OOwn => true | OPeers, OPeers => true | OCopy x, OCopy y => Nat.eqb x y | _, _ => false end.
 
 (* [fixed = true]: the repaired code (block holds a copy made under the read lock; SenderForBundle
    takes the read lock).  [fixed = false]: the code as found (block aliases the live map, marshalled
@@ -176,9 +180,10 @@ Definition mop_prog (fixed : bool) (t : nat) (op : mop) : list mact :=
   match op with
   | OpAge n => [ALock; ABegin OOwn] ++ repeat (AWrite OOwn) n ++ [AEnd OOwn; AUnlock]
   | OpPeerAppeared n => [ALock; AWrite OOwn; AUnlock] ++ send_metadata_prog fixed t n
-  | OpImport n => [ALock] ++ repeat (AWrite OOwn) n ++ [AUnlock]
-  | OpSenderFor => if fixed then [ARLock; ABegin OOwn; AEnd OOwn; ARUnlock]
-                   else [ABegin OOwn; AEnd OOwn]
+  | OpImport n => [ALock; ABegin OPeers; AEnd OPeers; AWrite OPeers; ABegin OPeers; AEnd OPeers]
+                  ++ repeat (AWrite OOwn) n ++ [AUnlock]
+  | OpSenderFor => if fixed then [ARLock; ABegin OOwn; AEnd OOwn; ABegin OPeers; AEnd OPeers; ARUnlock]
+                   else [ABegin OOwn; AEnd OOwn; ABegin OPeers; AEnd OPeers]
   end.
 
 Inductive mheld := HNone | HRead | HWrite.
